@@ -35,8 +35,11 @@ def _result_test(e):
             if neg:
                 ok = not ok
             return 'ok' if ok else 'err'
-        if isinstance(c, tuple) and c and c[0] == 'letcond' and c[1] in ('Ok', 'Err'):
-            ok = (c[1] == 'Ok') == (taken == 'true')
+        import re as _re
+        if isinstance(c, tuple) and c and c[0] == 'letcond' and isinstance(c[1], str) and \
+                _re.match(r'^(Ok|Err)(\((\(\)|_|[a-z_][a-z0-9_]*)\))?$', c[1]):
+            # `Ok`, `Ok(())`, `Ok(_)`, `Ok(x)`: the payload pattern cannot fail, so the test is on the variant alone
+            ok = c[1].startswith('Ok') == (taken == 'true')
             return 'ok' if ok else 'err'
         return None
     if isinstance(taken, tuple) and len(taken) > 1 and taken[0] == 'pat' and isinstance(taken[1], str):
